@@ -37,6 +37,7 @@ def _run_script(comp: Any, o: dict, script: list) -> None:
         if k == 'continue_after_exc':
             cont = True
             continue
+        conn0 = comp.conn
         try:
             if k == 'compile':
                 _, data = comp.compile(
@@ -65,12 +66,22 @@ def _run_script(comp: Any, o: dict, script: list) -> None:
             elif k == 'close':
                 comp.close()
                 v = None
+            elif k == 'sleep':
+                from vf import world
+                world.S.sleep(op[1])
+                v = None
             else:
                 raise HarnessError(f'bad script op {op}')
             ev.append(list(op[:2]) + ['ok', v])
         except HarnessError:
             raise
         except Exception as e:
+            # Compiler drops its only reference to the connection on a
+            # failed call (`self.conn = None`); CPython's reference counting
+            # then closes the socket at once.  The fake transport keeps
+            # registry references, so do that close here.
+            if comp.conn is None and conn0 is not None:
+                conn0.close()
             cause = e.__cause__
             msg = str(e)[-1500:]
             if cause is not None:
@@ -277,6 +288,7 @@ def register_judge(name: str, fn: Callable) -> None:
 
 def _import_judges() -> None:
     import vf.judges  # noqa: F401
+    import vf.checks.c13  # noqa: F401  (registers the API-history judge)
 
 
 def run_item(item: tuple) -> dict:
@@ -287,6 +299,11 @@ def run_item(item: tuple) -> dict:
     fps: set = set()
     rec = execute(spec, choices, fault, fps=fps,
                   record_steps=(fault is None and spec.get('want_steps')))
+    if rec['sched_error'] is not None and rec['sched_error'][0] == 'timeout':
+        # real-time watchdog: only a reproducible stall is a harness bug
+        fps = set()
+        rec = execute(spec, choices, fault, fps=fps,
+                      record_steps=(fault is None and spec.get('want_steps')))
     if rec['sched_error'] is not None:
         # re-run once: a divergence must be reproducible to be a harness bug
         raise HarnessError(
